@@ -25,6 +25,20 @@ cocls::async<void> co_user(SF sf, int i, int rk) {      // holds its own copy of
     catch (const cocls::await_canceled_exception &) { kind = 3; }
     observed(i, kind, val, rk);
 }
+// event-driven user: a callback awaiter that owns a handle; its handler - run inline by the resolving thread, inside the walk over the
+// future's awaiters - reads the result and then drops that handle (possibly the last one a user holds)
+struct CbUser : cocls::awaiter {
+    SF sf; int i, rk; cocls::promise<void> done;
+    CbUser(SF s, int i, int rk) : sf(std::move(s)), i(i), rk(rk) { set_resume_fn([](cocls::awaiter *me, void *) noexcept -> cocls::suspend_point<void> { return static_cast<CbUser *>(me)->fire(); }); }
+    cocls::suspend_point<void> fire() {
+        int kind; long val = 0;
+        try { val = sf.value().value(); kind = 1; } catch (const vs::TestError &e) { kind = 2; val = e.code; } catch (const cocls::await_canceled_exception &) { kind = 3; }
+        observed(i, kind, val, rk);
+        sf = SF();
+        return done();
+    }
+    void arm() { auto aw = sf.operator co_await(); if (!aw.subscribe(this)) fire().clear(); }
+};
 // (every awaiter holds its own reference while it waits: the documented contract of shared_future)
 void resolve(cocls::promise<vs::Counted> &p, int rk) {
     switch (rk) { case 0: p(VAL); break; case 1: p(vs::make_err(9)); break; default: p(cocls::drop); break; }
@@ -36,7 +50,7 @@ void dsim_scenario() {
     int ctor = dsim::choose(5);       // ... 4: default-constructed, init_if_needed() called explicitly (public), then get_promise()       // 0 promise-taking fn, 1 future-returning fn (pending), 2 future-returning fn (already resolved), 3 default + get_promise()
     int rk = dsim::choose(3);
     int nu = 1 + dsim::choose(3);
-    int uk[3]; for (int i = 0; i < nu; i++) uk[i] = dsim::choose(5);
+    int uk[3]; for (int i = 0; i < nu; i++) uk[i] = dsim::choose(6);
     bool t0_drops_early = dsim::flip();
     bool handoff_in_ctor = dsim::flip();      // the init function itself passes the promise to the resolver thread: resolution races with the constructor
     dsim::plan_note("ctor=%d resolver=%d users=", ctor, rk); for (int i = 0; i < nu; i++) dsim::plan_note("%d", uk[i]);
@@ -66,6 +80,7 @@ void dsim_scenario() {
                 case 1: { int kind; long val = 0; try { val = copy.wait().value(); kind = 1; } catch (const vs::TestError &e) { kind = 2; val = e.code; } catch (const cocls::await_canceled_exception &) { kind = 3; } observed(i, kind, val, rk); break; }
                 case 2: { SF second = copy; copy = SF(); co_user(second, i, rk).join(); break; }           // copy of a copy, first one dropped
                 case 3: { /* drop at once */ SF gone = std::move(copy); (void)gone; break; }
+                case 5: { CbUser u(std::move(copy), i, rk); cocls::future<void> fin; u.done = fin.get_promise(); u.arm(); fin.wait(); break; }
                 default: { copy.sync(); int kind; long val = 0; try { val = copy.value().value(); kind = 1; } catch (const vs::TestError &e) { kind = 2; val = e.code; } catch (const cocls::await_canceled_exception &) { kind = 3; } observed(i, kind, val, rk); break; }
                 }
             });
